@@ -38,7 +38,7 @@ ASSUMPTIONS = [
     "negative job ids passed to env.step are Python-valid indices and are not judged",
     "any exception type counts as 'raises'",
 ]
-REQUIRED_COUNTERS = {"multi_env_injections": 200, "injections": 2000, "env_injections": 200, "twin_comparisons": 30,
+REQUIRED_COUNTERS = {"blind_injections": 300, "multi_env_injections": 200, "injections": 2000, "env_injections": 200, "twin_comparisons": 30,
                      "kind_already_scheduled": 50, "kind_ahead_of_next": 50,
                      "kind_ineligible_machine": 50, "kind_machine_out_of_range": 50,
                      "kind_machine_minus_one": 50, "kind_none_machine_flexible": 10,
@@ -52,6 +52,7 @@ def gen_cases(ctx):
         c = gen_history_case(rng, max_jobs=rng.choice([2, 3, 4]), max_machines=rng.choice([2, 3, 4]),
                              classes=gen.INSTANCE_CLASSES + ["flexible"])
         c["kind"] = "dispatcher" if i % 3 else "env"
+        c["blind"] = i % 4 == 1   # no cached query is issued by the harness before an injection
         yield c
     for i in range(ctx.scale(40, 4800)):
         yield {"kind": "multi_env", "seed": rng.randrange(10**6), "instance": {"cls": "generated"},
@@ -111,7 +112,63 @@ def invalid_requests(run, rng):
     return out
 
 
+def raw_state(d):
+    """State read without calling any (cached) query."""
+    return ([[(so.operation.operation_id, so.start_time, so.machine_id) for so in lst]
+             for lst in d.schedule.schedule],
+            list(d.machine_next_available_time), list(d.job_next_available_time),
+            list(d.job_next_operation_index), [id(x) for x in d.subscribers])
+
+
+def run_blind_case(ctx, case):
+    """Injections with cold caches: the harness issues no query, neither before the rejected
+    request nor between steps; only raw state is read, and the final schedule is compared with
+    a twin that never saw an invalid request."""
+    rng = random.Random(case["seed"])
+    inst = case["instance"]
+    A = Run(inst, case.get("filter"))
+    B = Run(inst, case.get("filter"))
+    spy = Spy(A.d)
+    pos = 0
+    while True:
+        for kind, o, m in invalid_requests(A, rng):
+            before = raw_state(A.d)
+            upd = spy.updates
+            raised = None
+            try:
+                A.d.dispatch(A.op(o), m)
+            except Exception as e:
+                raised = type(e).__name__
+            ctx.count("injections"); ctx.count("blind_injections"); ctx.count("kind_" + kind)
+            w = {"fault": kind, "op": o, "machine": m, "position": pos, "blind": True,
+                 "history": list(A.r.history), "raised": raised}
+            if raised is None:
+                ctx.violation("c09_invalid_request_accepted", w)
+                return
+            if raw_state(A.d) != before or spy.updates != upd:
+                ctx.violation("c09_state_changed_by_rejected_request", w)
+            if A.r.scheduled() and A.r.unscheduled():
+                ctx.distinct.add(f"blind:{hash((gen.fingerprint(inst), tuple(A.r.history), kind, o, m))}")
+        if A.done():
+            break
+        ready = A.r.ready()
+        o = rng.choice(ready)
+        m = rng.choice(A.r.op_machines[o])
+        A.dispatch(o, m); B.dispatch(o, m)
+        pos += 1
+        sa, sb = raw_state(A.d)[:4], raw_state(B.d)[:4]
+        if sa != sb:
+            ctx.violation("c09_later_behaviour_differs_from_twin",
+                          {"blind": True, "step": pos, "with_rejections": sa[0], "twin": sb[0],
+                           "history": list(B.r.history)})
+            return
+    ctx.count("twin_comparisons")
+    ctx.evaluations += 1
+
+
 def run_dispatcher_case(ctx, case):
+    if case.get("blind"):
+        return run_blind_case(ctx, case)
     rng = random.Random(case["seed"])
     inst = case["instance"]
     A = Run(inst, case.get("filter"))
